@@ -134,7 +134,7 @@ Proof. exact CheckedProofs.empty_set_is_error. Qed.
 Print Assumptions invalid_empty_value_set.
 
 Theorem invalid_zero_divisor : forall s x y r ps,
-  existsb dempty s = false -> memZ 0 (sget s y) = true ->
+  existsb dempty s = false -> existsb dom_too_large s = false -> memZ 0 (sget s y) = true ->
   validate s (PMod (VVar x) (VVar y) r :: ps) = Some EInvalidConstraint.
 Proof. exact CheckedProofs.zero_divisor_is_error. Qed.
 Print Assumptions invalid_zero_divisor.
